@@ -87,14 +87,14 @@ theorem loopK_sq (ω : Oracle) (L L' : Stmt) {rb rb' : Out × St} {r : Out × St
   unfold loopK at h ⊢
   cases o <;> cases o' <;> simp_all [sq]
 
-theorem whileS_le (c : Cond) {b b' : List Stmt} (h : LoopLe b b') (ω : Oracle) :
-    ∀ n s r, exec ω n (.whileS c b) s = r → r.1 ≠ .fuel → ResS ω (.whileS c b') s r := by
+theorem whileS_le (c : Cond) {b b' e e' : List Stmt} (h : LoopLe b b') (hE : Equiv e e') (ω : Oracle) :
+    ∀ n s r, exec ω n (.whileS c b e) s = r → r.1 ≠ .fuel → ResS ω (.whileS c b' e') s r := by
   intro n
   induction n with
   | zero => intro s r he hr; subst he; simp [exec] at hr
   | succ n ih =>
     intro s r he hr
-    have hres : ResS ω (.whileS c b) s r := ⟨n + 1, he, hr⟩
+    have hres : ResS ω (.whileS c b e) s r := ⟨n + 1, he, hr⟩
     rw [resS_while] at hres ⊢
     split
     · rename_i hv
@@ -124,22 +124,24 @@ theorem whileS_le (c : Cond) {b b' : List Stmt} (h : LoopLe b b') (ω : Oracle) 
       | raise => simp at he; cases o' <;> simp_all [sq]
       | fuel => exact absurd rfl hbf
     · rename_i hv
-      simpa [hv] using hres
+      simp only [hv] at hres
+      exact (hE ω _ r).1 (by simpa using hres)
 
-theorem EquivS.whileS (c : Cond) {b b' : List Stmt} (h : LoopEquiv b b') : EquivS (.whileS c b) (.whileS c b') := by
+theorem EquivS.whileS (c : Cond) {b b' e e' : List Stmt} (h : LoopEquiv b b') (hE : Equiv e e') :
+    EquivS (.whileS c b e) (.whileS c b' e') := by
   intro ω s r
   constructor
-  · rintro ⟨n, hn, hr⟩; exact whileS_le c h.1 ω n s r hn hr
-  · rintro ⟨n, hn, hr⟩; exact whileS_le c h.2 ω n s r hn hr
+  · rintro ⟨n, hn, hr⟩; exact whileS_le c h.1 hE ω n s r hn hr
+  · rintro ⟨n, hn, hr⟩; exact whileS_le c h.2 hE.symm ω n s r hn hr
 
-theorem forUnk_le {b b' : List Stmt} (h : LoopLe b b') (ω : Oracle) :
-    ∀ n s r, exec ω n (.forS .unk b) s = r → r.1 ≠ .fuel → ResS ω (.forS .unk b') s r := by
+theorem forUnk_le {b b' e e' : List Stmt} (h : LoopLe b b') (hE : Equiv e e') (ω : Oracle) :
+    ∀ n s r, exec ω n (.forS .unk b e) s = r → r.1 ≠ .fuel → ResS ω (.forS .unk b' e') s r := by
   intro n
   induction n with
   | zero => intro s r he hr; subst he; simp [exec] at hr
   | succ n ih =>
     intro s r he hr
-    have hres : ResS ω (.forS .unk b) s r := ⟨n + 1, he, hr⟩
+    have hres : ResS ω (.forS .unk b e) s r := ⟨n + 1, he, hr⟩
     rw [resS_for_unk] at hres ⊢
     split
     · rename_i hv
@@ -168,16 +170,18 @@ theorem forUnk_le {b b' : List Stmt} (h : LoopLe b b') (ω : Oracle) :
       | raise => simp at he; cases o' <;> simp_all [sq]
       | fuel => exact absurd rfl hbf
     · rename_i hv
-      simpa [hv] using hres
+      simp only [hv] at hres
+      exact (hE ω _ r).1 (by simpa using hres)
 
-theorem EquivS.forS (it : Iter) {b b' : List Stmt} (h : LoopEquiv b b') : EquivS (.forS it b) (.forS it b') := by
-  have unk : EquivS (.forS .unk b) (.forS .unk b') := by
+theorem EquivS.forS (it : Iter) {b b' e e' : List Stmt} (h : LoopEquiv b b') (hE : Equiv e e') :
+    EquivS (.forS it b e) (.forS it b' e') := by
+  have unk : EquivS (.forS .unk b e) (.forS .unk b' e') := by
     intro ω s r
     constructor
-    · rintro ⟨n, hn, hr⟩; exact forUnk_le h.1 ω n s r hn hr
-    · rintro ⟨n, hn, hr⟩; exact forUnk_le h.2 ω n s r hn hr
+    · rintro ⟨n, hn, hr⟩; exact forUnk_le h.1 hE ω n s r hn hr
+    · rintro ⟨n, hn, hr⟩; exact forUnk_le h.2 hE.symm ω n s r hn hr
   cases it with
-  | empty => intro ω s r; rw [resS_for_empty, resS_for_empty]
+  | empty => intro ω s r; rw [resS_for_empty, resS_for_empty]; exact hE ω s r
   | unk => exact unk
   | nonempty =>
     intro ω s r
@@ -189,5 +193,36 @@ theorem EquivS.forS (it : Iter) {b b' : List Stmt} (h : LoopEquiv b b') : EquivS
     · rintro ⟨rb, hb, hk⟩
       obtain ⟨rb', hr', hs', ho'⟩ := h.2 ω s rb hb
       exact ⟨rb', hr', loopK_sq ω _ _ hs' ho' hb.choose_spec.2 (fun s => (unk ω s r).2) hk⟩
+
+theorem handled_congr {ω : Oracle} {hk : HKind} {hb hb' : List Stmt} (h : Equiv hb hb') {r1 r2 : Out × St} :
+    Handled ω hk hb r1 r2 ↔ Handled ω hk hb' r1 r2 := by
+  unfold Handled
+  split
+  · cases hk with
+    | none => exact Iff.rfl
+    | all => exact h ω _ r2
+    | some =>
+      simp only
+      split
+      · exact h ω _ r2
+      · exact Iff.rfl
+  · exact Iff.rfl
+
+theorem finished_congr {ω : Oracle} {f f' : List Stmt} (h : Equiv f f') {r2 r : Out × St} :
+    Finished ω f r2 r ↔ Finished ω f' r2 r := by
+  unfold Finished
+  constructor
+  · rintro ⟨r3, h3, e⟩; exact ⟨r3, (h ω _ r3).1 h3, e⟩
+  · rintro ⟨r3, h3, e⟩; exact ⟨r3, (h ω _ r3).2 h3, e⟩
+
+theorem EquivS.tryS (hk : HKind) {b b' hb hb' f f' : List Stmt} (h1 : Equiv b b') (h2 : Equiv hb hb') (h3 : Equiv f f') :
+    EquivS (.tryS b hk hb f) (.tryS b' hk hb' f') := by
+  intro ω s r
+  rw [resS_try, resS_try]
+  constructor
+  · rintro ⟨r1, r2, hb1, hh, hf⟩
+    exact ⟨r1, r2, (h1 ω s r1).1 hb1, (handled_congr h2).1 hh, (finished_congr h3).1 hf⟩
+  · rintro ⟨r1, r2, hb1, hh, hf⟩
+    exact ⟨r1, r2, (h1 ω s r1).2 hb1, (handled_congr h2).2 hh, (finished_congr h3).2 hf⟩
 
 end C16
